@@ -76,7 +76,7 @@ pub fn message(r: &mut StdRng, len: usize, class: usize) -> String {
     let pool: &[&str] = match class % 6 {
         // text that looks like protocol syntax: headers, dots, base64url, JSON with a repeated member, a timestamp
         5 => &["v4.local.", "v2.public.", ".", "{\"a\":1,\"a\":2}", "2019-01-01T00:00:00+00:00", "AAAA", "-_", "\"exp\":", "=", "a"],
-        0 => &["a", "b", "{", "}", "\"", ":", "0", " ", "x", "y"],
+        0 => &["a", "b", "{", "}", "\"", ":", "0", " ", "x", "y", "\\", "[", "]", ","],
         1 => &["é", "ß", "a", "ø", "1"],
         2 => &["€", "漢", "a", "字", "é", "z"],
         3 => &["😀", "𝄞", "a", "é", "€", "q"],
